@@ -1,5 +1,4 @@
-CONSTANTS D = 1 S = 12
+CONSTANTS D = 1 S = 6
 INIT Init
 NEXT Next
-CONSTRAINT Bound
 INVARIANT Emit
